@@ -99,6 +99,21 @@ CLAIMED["C13"] = dict(
               "and recover, quantified mask invariants; obligations discharged by z3/cvc5",
     design="§3 C13")
 
+CLAIMED["C04"] = dict(
+    text="Proof of the durability-ordering typestate of the file-system primitives every metadata/manifest write goes through "
+         "(pkg/fs): in WriteAtomic the final name is replaced (os.Rename is reached) only when the temporary file was completely "
+         "written, fsynced and closed without error; success is returned only after the rename and the directory fsync succeeded; a "
+         "failure before the rename attempts removal of the temporary file and leaves the final name untouched; after a failed rename "
+         "the complete temporary file is deliberately kept. Write reports success only after a complete write and a successful fsync. "
+         "Holds on every path (all error combinations of the OS calls).",
+    note=COMMON_NOTE + "Assumed: contracts of os.OpenFile/Write/Sync/Close/Rename/Remove and syncDir that only record which step "
+         "succeeded (ghost state). Narrow claim, said plainly: recovery (initTSTable/loadSnapshot/validatePartMetadata), 'exactly a "
+         "prefix of acknowledged batches', the engines' flush/manifest/GC ordering (proto-typed packages) and power-loss reordering "
+         "are not decided — they need fault enumeration against a file-system model, a different technique family.",
+    technique="contract-based deductive verification with ghost typestate: VCs from the typed Go AST (govc), assumed OS contracts, "
+              "caller-side at-call assertions; obligations discharged by z3/cvc5",
+    design="§3 C04")
+
 NOT_APPLICABLE = {
     "C15": "equivalence of two whole query pipelines over generated proto types: translation validation, no function contract states it (DESIGN.md §5)",
     "C17": "whole-cluster equivalence and gRPC/proto-typed transfer code with no type information in this tree (DESIGN.md §5)",
